@@ -54,6 +54,11 @@ def configs(tier):
     for motif in ("bare-t", "hub2+tri", "hub2+bare", "tri+tri2", "hub2-rev+bare", "tri-gen", "path2-repeat"):
         add("motifs", motif, 3, 1)
     add("motifs", "hub2+tri", 2, 3)
+    add("fast", "k3simple+k2", 3, 2)
+    # larger fixed sequences (magnitude-dependent arithmetic): 15 triangle stubs on 11 vertices, 22 edge stubs on 12, 33 on 23
+    for motif, dcol in (("k3", [2, 2, 2, 2, 1, 1, 1, 1, 1, 1, 1]), ("k2", [3, 3, 2, 2, 2, 2, 2, 2, 1, 1, 1, 1]), ("k3", [3] * 5 + [1] * 18)):
+        cfgs.append({"name": f"fast-{motif}-N{len(dcol)}-fixed-sum{sum(dcol)}", "alg": "fast", "motif": motif, "N": len(dcol), "D": max(dcol), "via": "direct",
+                     "history": False, "fixed_d": [[x] for x in dcol]})
     # a second call on the same generator object (state carried between calls)
     add("fast", "k2", 3, 2, history=True)
     add("fast", "k2k3", 3, 1, "enum", history=True)
@@ -101,6 +106,15 @@ def path(ctx, cfg):
     # (c) every vertex occupies exactly jds[v][k] slots of column k, for every permutation; (d) slots are vertices 0..N-1
     for k in range(len(spec["sizes"])):
         slots = gc.column_slots(r, k)
+        if cfg.get("fixed_d"):
+            # long stub lists: instead of the counting query, the slots must be - object by object - the elements of the shuffled canonical
+            # stub list of this column, each exactly once (a permutation of the canonical list gives every vertex its degree)
+            recs = [x for x in r.shuffles if x["n"] == len(slots)]
+            canon = sorted(v for v in range(N) for _ in range(r.d[v][k]))
+            ok = len(recs) >= 1 and any(sorted(int(y) for y in x["orig"]) == canon and sorted(map(id, x["result"])) == sorted(map(id, slots)) for x in recs)
+            ctx.require(ok, "slots-per-vertex", lambda k=k, slots=slots: f"{desc}: column {k}: the {len(slots)} slots are not exactly the {len(canon)} shuffled stubs",
+                        sig="slots-are-the-shuffled-stubs")
+            continue
         conds = [eq(count_eq(slots, v), r.d[v][k]) for v in range(N)]
         tw = [eq(count_eq(slots, v), r.d[v][k] + 1) for v in range(N)]
         ctx.require(all_(conds), "slots-per-vertex",
